@@ -148,6 +148,11 @@ def order_table(wd, rng, A, trees, tier):
         f.write("  putchar('\\n');\n  printf(\"M %d \", i);\n")
         for j in range(n):
             f.write(f"  putchar(au::InStandardPackOrder<au::detail::MagT<A>, au::detail::MagT<S{j}>>::value ? '1' : '0');\n")
+        # two sampled expressions can denote one and the same type (products cancel: (Bars / W) * W is Bars); such a pair
+        # is one unit, not two, and is merged below
+        f.write("  putchar('\\n');\n  printf(\"I %d \", i);\n")
+        for j in range(n):
+            f.write(f"  putchar(std::is_same<A, S{j}>::value ? '1' : '0');\n")
         f.write("  putchar('\\n');\n}\nint main() {\n")
         for i in range(n):
             f.write(f"  row<S{i}>({i});\n")
@@ -159,13 +164,25 @@ def order_table(wd, rng, A, trees, tier):
     rc, o, e = run([exe])
     rows = [None] * n
     KEYROWS["D"], KEYROWS["M"] = [None] * n, [None] * n
+    same = [None] * n
     for line in o.split("\n"):
         if line.startswith("R "):
             _, i, bits = line.split()
             rows[int(i)] = bits
+        elif line.startswith("I "):
+            _, i, bits = line.split()
+            same[int(i)] = bits
         elif line[:2] in ("D ", "M "):
             k, i, bits = line.split()
             KEYROWS[k][int(i)] = bits
+    if all(r is not None for r in same):
+        keep = [i for i in range(n) if not any(same[i][j] == "1" for j in range(i))]
+        if len(keep) < n:
+            pick = lambda bits: None if bits is None else "".join(bits[j] for j in keep)
+            sample = [sample[i] for i in keep]
+            rows = [pick(rows[i]) for i in keep]
+            for k in ("D", "M"):
+                KEYROWS[k] = [pick(KEYROWS[k][i]) for i in keep]
     return sample, rows, ""
 
 
